@@ -58,8 +58,10 @@ def main():
         sh(f'git -C /repo worktree remove --force {scratch}')
         shutil.rmtree(scratch, ignore_errors=True)
     confirmed = clean.returncode == 0 and broken.returncode != 0 and suite.startswith('381 passed')
+    base = sh('git -C /repo log -1 --format=%h').stdout.strip()
     rec = {
         'name': name,
+        'base_commit': base,
         'breaks_property': props[0],
         'agent_meta': meta,
         'confirmed': {
